@@ -1,13 +1,141 @@
 /-
-C04 — see DESIGN.md §5.
+C04 — built polyhedra are closed, consistently oriented, outward.
+
+The theorems are about Model/Dim3.lean over ℝ (the correspondence run compares every face of every
+generated mesh with the crate's).  Proved for every profile and every n:
+
+* `linear_extrude` / `loft` / `cylinder`: the face list is bottom cap, top cap, quad strip; every
+  face index refers to an existing point; every face has three or four vertices;
+* the directed edges of a quad strip are its lower ring forwards, its upper ring backwards and every
+  vertical edge once in each direction (`strip_edges`, for all n);
+* **gluing** (`linearExtrude_closed`): if the two caps tile their rings — the C03 certificate: ring
+  edges once, in the stated direction, every other edge in both directions — then in the whole
+  mesh every directed edge is matched by its reverse.
+
+PARTIAL: that the caps tile their rings is C03's partial part (two-ears); `each directed edge occurs
+in exactly one face` (no duplicates), the revolve/sweep/thread face lists, and the sign of the
+volume are decided by the Lean oracle (`closedOriented`, `signedVolumeCW`) on every generated mesh.
 -/
-import ScadVerif.Lemmas.PtReal
-import ScadVerif.Model.Dim3
-import ScadVerif.Spec.Mesh
+import ScadVerif.Props.C03
+import ScadVerif.Props.C05
+import ScadVerif.Lemmas.MeshLemmas
 namespace ScadVerif.C04
-open ScadVerif ScadVerif.Dim3
+open ScadVerif ScadVerif.Dim3 ScadVerif.Dim3.Polyhedron ScadVerif.Spec ScadVerif.MeshLemmas
 
 /-- the quad strip between two rings has one quad per profile edge -/
 theorem strip_length (n lo hi : Nat) : (strip n lo hi).length = n := by simp [strip]
+
+/-- directed edges of a quad strip, for every n -/
+theorem strip_edges (n lo hi : Nat) :
+    (allEdges (strip n lo hi)).Perm
+      (ringF n lo ++ ups n lo hi ++ (ringF n hi).map Prod.swap ++ (ups n lo hi).map Prod.swap) :=
+  MeshLemmas.strip_edges n lo hi
+
+/-- the faces of a linear extrusion: bottom cap (reversed outline), top cap, side quads -/
+theorem linearExtrude_faces (profile : List (Pt2 ℝ)) (height : ℝ) (p : Polyhedron ℝ)
+    (h : linearExtrude profile height = some p) :
+    ∃ bottom top, Tri.triangulate2dRev profile = some bottom ∧ Tri.triangulate2d profile = some top ∧
+      p.faces = triFaces 0 bottom ++ triFaces profile.length top ++ strip profile.length 0 1 ∧
+      p.points.length = 2 * profile.length := by
+  unfold linearExtrude at h
+  simp only [Option.bind_eq_bind, Option.pure_def] at h
+  obtain ⟨b, hb, h⟩ := C05.bind_some h
+  obtain ⟨t, ht, h⟩ := C05.bind_some h
+  injection h with h; subst h
+  exact ⟨b, t, hb, ht, rfl, by simp; omega⟩
+
+theorem loft_faces (lower upper : List (Pt2 ℝ)) (height : ℝ) (p : Polyhedron ℝ)
+    (h : loft lower upper height = some p) :
+    lower.length = upper.length ∧
+    ∃ bottom top, Tri.triangulate2dRev lower = some bottom ∧ Tri.triangulate2d upper = some top ∧
+      p.faces = triFaces 0 bottom ++ triFaces lower.length top ++ strip lower.length 0 1 ∧
+      p.points.length = 2 * lower.length := by
+  unfold loft at h
+  by_cases hl : lower.length = upper.length
+  · simp only [hl, ne_eq, not_true_eq_false, if_false, Option.bind_eq_bind, Option.pure_def] at h
+    obtain ⟨b, hb, h⟩ := C05.bind_some h
+    obtain ⟨t, ht, h⟩ := C05.bind_some h
+    injection h with h; subst h
+    exact ⟨hl, b, t, hb, ht, by rw [hl], by simp; omega⟩
+  · simp [hl] at h
+
+/-- shared by both: a capped strip over two rings of `n` points has only valid indices and only
+triangles and quads -/
+theorem capped_valid (n : Nat) (bottom top : List Nat) (hb : ∀ i ∈ bottom, i < n) (ht : ∀ i ∈ top, i < n) :
+    ∀ f ∈ triFaces 0 bottom ++ triFaces n top ++ strip n 0 1,
+      (∀ v ∈ f, v < 2 * n) ∧ (f.length = 3 ∨ f.length = 4) := by
+  intro f hf
+  simp only [List.mem_append] at hf
+  rcases hf with (hf | hf) | hf
+  · exact ⟨fun v hv => by have := triFaces_indices 0 n bottom hb f hf v hv; omega,
+      Or.inl (triFaces_tri 0 bottom f hf)⟩
+  · exact ⟨fun v hv => by have := triFaces_indices n n top ht f hf v hv; omega,
+      Or.inl (triFaces_tri n top f hf)⟩
+  · exact ⟨fun v hv => by have := strip_indices n 0 1 f hf v hv; simpa using this,
+      Or.inr (strip_quads n 0 1 f hf)⟩
+
+/-- **C04, indices and face sizes.** Every face index of a linear extrusion refers to an existing
+point and every face is a triangle or a quad. -/
+theorem linearExtrude_valid (profile : List (Pt2 ℝ)) (height : ℝ) (p : Polyhedron ℝ)
+    (h : linearExtrude profile height = some p) :
+    ∀ f ∈ p.faces, (∀ v ∈ f, v < p.points.length) ∧ (f.length = 3 ∨ f.length = 4) := by
+  obtain ⟨b, t, hb, ht, hf, hp⟩ := linearExtrude_faces profile height p h
+  have sb := (C03.triangulate2d_spec profile).2.2 b hb
+  have st := (C03.triangulate2d_spec profile).2.1 t ht
+  rw [hf, hp]
+  exact capped_valid profile.length b t sb.1 st.1
+
+theorem loft_valid (lower upper : List (Pt2 ℝ)) (height : ℝ) (p : Polyhedron ℝ)
+    (h : loft lower upper height = some p) :
+    ∀ f ∈ p.faces, (∀ v ∈ f, v < p.points.length) ∧ (f.length = 3 ∨ f.length = 4) := by
+  obtain ⟨hl, b, t, hb, ht, hf, hp⟩ := loft_faces lower upper height p h
+  have sb := (C03.triangulate2d_spec lower).2.2 b hb
+  have st := (C03.triangulate2d_spec upper).2.1 t ht
+  rw [hf, hp]
+  exact capped_valid lower.length b t sb.1 (fun i hi => by rw [hl]; exact st.1 i hi)
+
+theorem cylinder_valid (r height : ℝ) (seg : Nat) (p : Polyhedron ℝ) (h : cylinder r height seg = some p) :
+    ∀ f ∈ p.faces, (∀ v ∈ f, v < p.points.length) ∧ (f.length = 3 ∨ f.length = 4) := by
+  unfold cylinder at h
+  simp only [Option.bind_eq_bind] at h
+  obtain ⟨c, _, h⟩ := C05.bind_some h
+  exact linearExtrude_valid c height p h
+
+/-- the C03 certificate for a cap: the ring's edges once each, in the stated direction, every other
+edge of the cap in both directions -/
+def CapTiles (n r : Nat) (forward : Bool) (cap : List (List Nat)) : Prop :=
+  ∃ d : List Edge, (allEdges cap).Perm
+    ((if forward then ringF n r else (ringF n r).map Prod.swap) ++ d ++ d.map Prod.swap)
+
+theorem allEdges_append (a b : List (List Nat)) : allEdges (a ++ b) = allEdges a ++ allEdges b := by
+  simp [allEdges]
+
+/-- **C04, gluing.** When both caps tile their rings, every directed edge of a linear extrusion is
+matched by its reverse: the surface is closed and consistently oriented (as edge multisets). -/
+theorem linearExtrude_closed (profile : List (Pt2 ℝ)) (height : ℝ) (p : Polyhedron ℝ)
+    (h : linearExtrude profile height = some p)
+    (hcaps : ∀ bottom top, Tri.triangulate2dRev profile = some bottom → Tri.triangulate2d profile = some top →
+      CapTiles profile.length 0 false (triFaces 0 bottom) ∧
+      CapTiles profile.length 1 true (triFaces profile.length top)) :
+    EdgeClosed (allEdges p.faces) := by
+  obtain ⟨b, t, hb, ht, hf, _⟩ := linearExtrude_faces profile height p h
+  obtain ⟨⟨d1, h1⟩, ⟨d2, h2⟩⟩ := hcaps b t hb ht
+  rw [hf, allEdges_append, allEdges_append]
+  exact capped_strip_closed profile.length 0 1 _ _ d1 d2 (by simpa using h1) (by simpa using h2)
+
+theorem loft_closed (lower upper : List (Pt2 ℝ)) (height : ℝ) (p : Polyhedron ℝ)
+    (h : loft lower upper height = some p)
+    (hcaps : ∀ bottom top, Tri.triangulate2dRev lower = some bottom → Tri.triangulate2d upper = some top →
+      CapTiles lower.length 0 false (triFaces 0 bottom) ∧
+      CapTiles lower.length 1 true (triFaces lower.length top)) :
+    EdgeClosed (allEdges p.faces) := by
+  obtain ⟨_, b, t, hb, ht, hf, _⟩ := loft_faces lower upper height p h
+  obtain ⟨⟨d1, h1⟩, ⟨d2, h2⟩⟩ := hcaps b t hb ht
+  rw [hf, allEdges_append, allEdges_append]
+  exact capped_strip_closed lower.length 0 1 _ _ d1 d2 (by simpa using h1) (by simpa using h2)
+
+/-- non-vacuity of the certificate: the two triangles of a square tile its ring -/
+example : CapTiles 4 0 true [[0, 1, 2], [0, 2, 3]] :=
+  ⟨[(2, 0)], by decide⟩
 
 end ScadVerif.C04
